@@ -97,15 +97,16 @@ def _scaled_followups(fx, np, x):
     out = []
 
     def snap(how, y):
+        fl = common.flags_of(y)
         out.append({'how': how, 'z': fmt_of(y), 'c': [wint(c) for c in common.codes_of(y)],
                     'rb': [wdy(b) for b in np.asarray(y.get_val(), dtype=float).ravel().tolist()],
-                    'lim': [wdy(float(y.upper)), wdy(float(y.lower)), wdy(float(y.precision))]})
+                    'lim': [wdy(float(y.upper)), wdy(float(y.lower)), wdy(float(y.precision))], 'fl': [fl['o'], fl['u'], fl['i']]})
 
     def attempt(how, f):
         try:
             snap(how, f())
         except Exception as ex:
-            out.append({'how': how + '.raised:' + type(ex).__name__, 'z': fmt_of(x), 'c': [], 'rb': [], 'lim': [wdy(0), wdy(0), wdy(0)]})
+            out.append({'how': how + '.raised:' + type(ex).__name__, 'z': fmt_of(x), 'c': [], 'rb': [], 'lim': [wdy(0), wdy(0), wdy(0)], 'fl': [False, False, False]})
 
     def raw_store():
         y = x.deepcopy(); y.set_val(np.array(y.val).copy() if isinstance(y.val, np.ndarray) else int(y.val), raw=True); return y
@@ -121,6 +122,19 @@ def _scaled_followups(fx, np, x):
 
     def raw_then_value():
         y = raw_store(); y.set_val(x.get_val()); return y
+    def resize_widen():          # two more fraction bits and two more word bits: every value is preserved exactly
+        y = x.deepcopy(); y.reset(); y.resize(bool(x.signed), int(x.n_word) + 2, int(x.n_frac) + 2); return y
+
+    def setitem_same():          # an element written with the value it already reads as: exact, no flag, codes unchanged
+        y = x.deepcopy(); y.reset()
+        v0 = np.asarray(y.get_val(), dtype=float).ravel()[0]
+        if np.ndim(y.val) >= 1:
+            y[0] = float(v0)
+        else:
+            y.set_val(float(v0))
+        return y
+    attempt('resize-widen', resize_widen)
+    attempt('setitem-same', setitem_same)
     attempt('raw-store', raw_store)
     attempt('raw-store+resize', raw_then_resize)
     attempt('resize-norestore', resize_norestore)
@@ -144,6 +158,10 @@ def observe_scaled(fx, np, props, t, modes, scale, bias, us, route='ctor', scala
             if F(float(v)) != v:
                 raise AssertionError('driver produced an inexact double')
         kw = dict(rounding=modes[0], overflow=modes[1], scale=s_, bias=b_)
+        if bias == 0:
+            del kw['bias']          # only the keyword that matters is passed (the other one keeps its default)
+        if scale == 1:
+            del kw['scale']
         if npcar:           # inputs carried by a (narrow) NumPy dtype: only the inputs that dtype holds exactly
             tp = getattr(np, npcar)
 
